@@ -22,7 +22,7 @@ def obligations(tier, seed=0):
                  keep=lambda spec, p: p.get('prec', 0) > 0 and not spec.endswith(':special'))
     try:
         from checks import c10_extra
-        obs += c10_extra.obligations(tier, seed)
+        obs = c10_extra.obligations(tier, seed) + obs
     except ImportError:
         pass
     return obs
